@@ -12,6 +12,9 @@
 #include <time.h>
 #include <unistd.h>
 
+#include <absl/time/clock.h>
+#include <absl/time/time.h>
+
 #include <deque>
 #include <unordered_map>
 
@@ -381,6 +384,25 @@ time_t time(time_t* out) {
   return t;
 }
 
+}  // extern "C"
+
+// abseil's GetCurrentTimeNanos() estimates time from the cycle counter and only
+// occasionally calls clock_gettime: real time would leak into simulated runs
+// (observed: one run in twelve had an extra clock_gettime scheduling point).
+// The executable's definitions take precedence over libabsl_time.so's.
+namespace absl {
+ABSL_NAMESPACE_BEGIN
+int64_t GetCurrentTimeNanos() {
+  struct timespec ts;
+  ::clock_gettime(CLOCK_REALTIME, &ts);  // interposed above: virtual when live
+  return (int64_t)ts.tv_sec * 1000000000LL + ts.tv_nsec;
+}
+Time Now() { return FromUnixNanos(GetCurrentTimeNanos()); }
+ABSL_NAMESPACE_END
+}  // namespace absl
+
+extern "C" {
+
 static int sim_sleep(int64_t ns) {
   Thread* me = self;
   sync_point(P_SLEEP, 0);
@@ -471,7 +493,7 @@ ssize_t writev(int fd, const struct iovec* iov, int cnt) {
   for (int i = 0; i < cnt && done < limit; i++) {
     size_t n = iov[i].iov_len;
     if (done + n > limit) n = limit - done;
-    sim::hb_read(iov[i].iov_base, n);
+    if (n) sim::hb_read(iov[i].iov_base, n);  // zero-length elements (LogEntry page-table pages) touch no memory
     s->data.append((const char*)iov[i].iov_base, n);
     done += n;
   }
